@@ -153,12 +153,15 @@ def generate(streams: core.Streams, tier: str) -> dict:
                         "format": gen.pick(s, ["default", "alt"])})
         else:
             if regs or names:
-                ops.append({"op": "Check", "src": gen.pick(s, regs + names if gen.chance(s, 0.3) else (regs or names)),
+                ops.append({"op": gen.pick(s, ["Check", "CheckDirect"]),
+                            "src": gen.pick(s, regs + names if gen.chance(s, 0.3) else (regs or names)),
                             "format": gen.pick(s, ["default", "alt"])})
     target = regs[-1] if regs else names[0]
-    ops.append({"op": "Check", "src": target, "format": gen.pick(s, ["default", "alt"])})
-    if regs and gen.chance(s, 0.5):
-        ops.append({"op": "Check", "src": gen.pick(s, regs + names), "format": gen.pick(s, ["default", "alt"])})
+    ops.append({"op": gen.pick(s, ["Check", "Check", "CheckDirect"]), "src": target, "format": gen.pick(s, ["default", "alt"])})
+    if regs and gen.chance(s, 0.6):
+        # an older composite or an operand, after later compositions took over (some of) its items
+        ops.append({"op": gen.pick(s, ["Check", "CheckDirect", "CheckDirect"]), "src": gen.pick(s, regs + names),
+                    "format": gen.pick(s, ["default", "alt"])})
     return {"rich": rich, "specs": specs, "backend_pipeline": backend_pipeline,
             "format_pipeline": format_pipeline, "ops": ops}
 
@@ -269,6 +272,36 @@ def predict(sc: dict, idx: list[int], fmt: str) -> Any:
     return out
 
 
+def predict_direct(sc: dict, idx: list[int]) -> Any:
+    """Oracle A for direct use of a pipeline object (apply / postprocess_query / finalize without a backend
+    pipeline around it)."""
+    chain = [sc["specs"][i] for i in idx]
+    queries, states = [], []
+    for title, product in TITLES:
+        prefix, state = "", {}
+        for p in chain:
+            for t in p.get("transformations", []):
+                if not _applies(t, product):
+                    continue
+                if t["type"] == "field_name_prefix":
+                    prefix = t["prefix"] + prefix
+                elif t["type"] == "set_state":
+                    state[t["key"]] = t["val"]
+        q = f'{prefix}User="x"'
+        for p in chain:
+            for t in p.get("postprocessing", []):
+                if _applies(t, product) and t["type"] == "embed":
+                    q = t["prefix"] + q + t["suffix"]
+        queries.append(q)
+        states.append(state)
+    out: Any = queries
+    for p in chain:
+        for f in p.get("finalizers", []):
+            tag = f["template"].split(" ")[0][1:]
+            out = f"<{tag} {out} {tag}>"
+    return {"states": states, "final": out}
+
+
 # ------------------------------------------------------------------------------------------------
 # worlds
 
@@ -300,12 +333,31 @@ def _convert(sc: dict, cls: Any, pipeline: Any, fmt: str) -> dict:
     return world.capture(lambda: b.convert(world.load_collection(_docs_rich() if sc["rich"] else _docs()), fmt))
 
 
-def _fresh_single(args: tuple[dict, list[int], str]) -> dict:
+def _direct(sc: dict, pipeline: Any) -> dict:
+    """Use the pipeline object directly: apply, convert with a pipeline-free backend, post-process every
+    query, finalize once."""
+    from sigsim import simbackend, world
+
+    def run() -> Any:
+        coll = world.load_collection(_docs_rich() if sc["rich"] else _docs())
+        states, queries = [], []
+        for rule in coll.rules:
+            pipeline.apply(rule)
+            states.append(dict(pipeline.state))
+            for q in simbackend.SimBackendPlain().convert_rule(rule):
+                queries.append(pipeline.postprocess_query(rule, q))
+        return {"states": states, "final": pipeline.finalize(queries)}
+
+    return world.capture(run)
+
+
+def _fresh_single(args: tuple[dict, list[int], str, bool]) -> dict:
     from sigsim import world
 
-    sc, idx, fmt = args
+    sc, idx, fmt, direct = args
     cls = _configure_class(sc)
-    return _convert(sc, cls, world.build_pipeline(concatenated_spec(sc, idx)), fmt)
+    single = world.build_pipeline(concatenated_spec(sc, idx))
+    return _direct(sc, single) if direct else _convert(sc, cls, single, fmt)
 
 
 def execute(scenario: dict) -> dict:
@@ -320,8 +372,9 @@ def execute(scenario: dict) -> dict:
         # fresh-world references for every Check, before any operation is executed
         fresh: dict[int, dict] = {}
         for k, op in enumerate(sc["ops"]):
-            if op["op"] == "Check":
-                st, res = core.run_in_fork(_fresh_single, (sc, env_model[op["src"]], op["format"]), 15.0)
+            if op["op"] in ("Check", "CheckDirect"):
+                st, res = core.run_in_fork(_fresh_single, (sc, env_model[op["src"]], op["format"],
+                                                           op["op"] == "CheckDirect"), 15.0)
                 if st != "ok":
                     raise core.HarnessError(f"fresh world failed: {st}: {res}")
                 fresh[k] = res
@@ -410,21 +463,25 @@ def execute(scenario: dict) -> dict:
                     _convert(sc, cls, o, op["format"])
                     core.merge_counts(faults, {"history:operand_used_by_a_backend": 1})
                 sigparts.append(["U"])
-            elif kind == "Check":
+            elif kind in ("Check", "CheckDirect"):
                 o = objs[op["src"]]
                 idx = env_model[op["src"]]
+                direct = kind == "CheckDirect"
                 if isinstance(o, Exception):
                     got: dict = world.exc_record(o)
+                elif direct:
+                    got = _direct(sc, o)
+                    core.merge_counts(faults, {"op:direct_use_of_pipeline_object": 1})
                 else:
                     got = _convert(sc, cls, o, op["format"])
                 wantB = fresh[k]
                 log.append({"op": k, "idx": idx, "got": got, "wantB": wantB})
-                sigparts.append(["C", idx, op["format"]])
+                sigparts.append(["D" if direct else "C", idx, op["format"]])
                 if got != wantB:
                     violation = {"oracle": "composed-object-equals-single-pipeline-from-concatenated-spec",
                                  "kind": "differs", "step": k, "model_order": idx, "got": got, "want": wantB}
                 elif not sc["rich"]:
-                    wantA = {"ok": predict(sc, idx, op["format"])}
+                    wantA = {"ok": predict_direct(sc, idx) if direct else predict(sc, idx, op["format"])}
                     if got != wantA:
                         violation = {"oracle": "output-equals-reference-model-prediction", "kind": "differs",
                                      "step": k, "model_order": idx, "got": got, "want": wantA}
@@ -456,22 +513,22 @@ def _regs_used(ops: list[dict]) -> set[str]:
     for o in ops:
         if o["op"] == "Add":
             u.update(_leaves(o["expr"]))
-        elif o["op"] in ("UseInBackend", "Check"):
+        elif o["op"] in ("UseInBackend", "Check", "CheckDirect"):
             u.add(o["src"])
     return u
 
 
 def shrink(sc: dict) -> Iterable[dict]:
     ops = sc["ops"]
-    checks = [i for i, o in enumerate(ops) if o["op"] == "Check"]
+    checks = [i for i, o in enumerate(ops) if o["op"] in ("Check", "CheckDirect")]
     if len(checks) > 1:
         for keep in checks:
             c = copy.deepcopy(sc)
-            c["ops"] = [o for i, o in enumerate(ops) if o["op"] != "Check" or i == keep]
+            c["ops"] = [o for i, o in enumerate(ops) if o["op"] not in ("Check", "CheckDirect") or i == keep]
             yield c
     for i in reversed(range(len(ops))):
         o = ops[i]
-        if o["op"] == "Check" and len(checks) == 1:
+        if o["op"] in ("Check", "CheckDirect") and len(checks) == 1:
             continue
         if o["op"] in ("Add", "Resolve") and o["dst"] in _regs_used(ops[i + 1:]):
             continue
@@ -509,7 +566,7 @@ def shrink(sc: dict) -> Iterable[dict]:
                 c = copy.deepcopy(sc)
                 c["ops"][i]["via"] = "names"
                 yield c
-        if o["op"] in ("Check", "UseInBackend") and o["format"] != "default":
+        if o["op"] in ("Check", "CheckDirect", "UseInBackend") and o["format"] != "default":
             c = copy.deepcopy(sc)
             c["ops"][i]["format"] = "default"
             yield c
